@@ -10,14 +10,22 @@ def register(OPS, drv):
         w = drv.World(job)
         try:
             out = []
+            hangs = 0
             for sel in job["selectors"]:
                 drv.reset_lazies()
+                if hangs >= 3:
+                    out.append({"cls": "EXC:NotServed", "sel": None, "mime_html": False})
+                    continue
                 try:
-                    h = HandlerMultiplexer.getHandler(sel, "", None, w.config)
+                    with drv.time_limit():
+                        h = HandlerMultiplexer.getHandler(sel, "", None, w.config)
                     out.append({"cls": type(h).__name__, "sel": h.selector,
                                 "mime_html": mimetypes.guess_type(sel)[0] == "text/html"})
                 except GopherExceptions.FileNotFound:
                     out.append({"cls": None, "sel": None, "mime_html": mimetypes.guess_type(sel)[0] == "text/html"})
+                except drv.RequestTimeLimit:
+                    hangs += 1
+                    out.append({"cls": "EXC:RequestTimeLimit", "sel": None, "mime_html": False})
                 except Exception as e:  # noqa
                     out.append({"cls": "EXC:" + type(e).__name__, "sel": None, "mime_html": False})
             return out
